@@ -30,6 +30,8 @@ def project_probes(ctx, project):
         ctx.probe("file_regime_" + f.get("regime", "lf"))
         if f.get("shared_lines"):
             ctx.probe("two_patterns_one_line", f["shared_lines"])
+        if f.get("overlap"):
+            ctx.probe("overlapping_bare_patterns")
         if f.get("bare"):
             ctx.probe("bare_version_pattern")
         if f.get("globbed"):
@@ -184,6 +186,7 @@ class Life:
                                       "the {pep440_version} text bumpver renders for %r (%r) is not accepted by the "
                                       "derived search pattern %r" % (text, w.pep_initial(text), raw))
         generated = False
+        wrote = False      # the files hold what a successful real update of this run wrote
         regions = tuple(sorted(set(s["slot"] if s["slot"].startswith("{") else "partial"
                                    for f in project["files"] for ln in f["lines"] for s in ln["segs"]
                                    if not isinstance(s, str))))
@@ -254,9 +257,16 @@ class Life:
                 new_state, new_text2 = out
                 gen2 = False if new_text2 != text else generated
             else:
+                nvj = len(ctx.violations)
                 out = tc.judge_bump(ctx, tree, pattern, state, text, flags, clock, delta, exp, res.exit_code, new_text,
                                     None, generated, abstract,
                                     fail_info="exit %s %s" % (res.exit_code, res.exc or [m for _l, _n, m in res.logs][-3:]))
+                nomatch = [m for _l, _n, m in res.logs if m.startswith("No match for pattern")]
+                if wrote and nomatch and any(v["kind"] == "must_succeed_but_failed" for v in ctx.violations[nvj:]):
+                    # C02 for search patterns: the files hold exactly what bumpver's last update rendered, and the
+                    # pattern that rendered it does not find it again
+                    ctx.violation("C02", "written_text_not_recognised", dict(base_facts, written_by_update=True),
+                                  "after a successful update wrote %r, the next update fails: %s" % (text, nomatch[:2]))
                 if out is None:
                     break
                 new_state, new_text2, gen2 = out
@@ -277,6 +287,7 @@ class Life:
             if not ok:
                 break
             state, text, generated = new_state, new_text2, gen2
+            wrote = True
             if self.grep_pep and pep440.is_pep440(text):
                 # C15: what was written for {pep440_version} is accepted by the derived search pattern
                 for f in project["files"]:
